@@ -8,23 +8,48 @@ from vt.gen import corpus
 
 PID = "C32"
 LEVEL = "exploration"
-TECHNIQUE = "runtime trace monitor: a recording context class and wrapped template-loading entry points log every context lookup and template load; each event is checked against meta.find_undeclared_variables / find_referenced_templates of the template whose code performed it"
-RULE = ("generated programs (statement programs, inheritance chains, include/import sets, expressions, "
-        "loops) rendered on 2 data assignments with a Context subclass recording resolve_or_missing(key) "
-        "together with the template whose code asked, and wrappers recording get_template / "
+TECHNIQUE = "runtime trace monitor: a recording context class (all by-name access methods, every context of every template involved) and wrapped template-loading entry points log every context lookup and template load during render, import and module construction; each event is checked against meta.find_undeclared_variables / find_referenced_templates of the template whose code or module construction performed it"
+RULE = ("generated programs (statement programs, inheritance chains, include/import sets with and without "
+        "context, expressions, loops) rendered on 2 data assignments with a Context subclass "
+        "(environment.context_class, so it is the context of the importer, of import targets, of included "
+        "templates and of parents alike) recording the outermost call of resolve_or_missing / resolve / "
+        "__getitem__ / get / __contains__, whoever makes it: generated template code (attributed to the "
+        "template of the calling code), engine code working for template code on that same context "
+        "(attributed to that code's template), or engine code building something for the context's own "
+        "template - e.g. the module of an import target - (attributed to context.name); afterwards every "
+        "template of the set is also turned into a module through the API (template.module, make_module(), "
+        "make_module(vars), make_module_async) under the same monitor; wrappers record get_template / "
         "select_template / get_or_select_template(parent, names); every observed key must be in "
         "find_undeclared_variables(parse(T)) or an environment/template global, every observed load must "
         "be listed by find_referenced_templates(parse(T)) or that list contains None. distinct = distinct "
         "(program shape) with >= 1 observed lookup")
 LEVEL_TEXT = "held on the generated programs only"
-ASSUMPTIONS = ["the asking template is identified by the `name` global of the calling generated-code frame"]
+ASSUMPTIONS = ["code generated from a template is recognised by its compiler-made module globals (`name`, "
+               "`blocks`, no `__name__`); the asking template is that `name`",
+               "a lookup made by engine code that is not working for template code on the same context is charged "
+               "to the template the context was created for (Context.name)",
+               "Context.get_exported (documented) is counted to show that module construction was observed"]
 NSHARDS = {"quick": 16, "thorough": 16}
 BUDGET_S = {"quick": 20, "thorough": 500}
 FLOORS = {
     "quick": {"evaluations": 1500, "distinct": 300,
-              "counters": {"lookup_events": 10000, "load_events": 800, "distinct_keys_checked": 2000}},
+              "counters": {"lookup_events": 10000, "load_events": 800, "distinct_keys_checked": 2000,
+                           "module_constructions": 3500, "module_constructions_ok": 2800,
+                           "module_builds_by_api": 2800, "module_builds_during_render": 250,
+                           "import_target_modules_observed": 220, "module_lookup_events": 10000,
+                           "module_constructions:module": 1500, "module_constructions:make_module": 750,
+                           "module_constructions:make_module(vars)": 750,
+                           "module_constructions:make_module_async": 240,
+                           "module_constructions:make_module_async(vars)": 240}},
     "thorough": {"evaluations": 40000, "distinct": 5000,
-                 "counters": {"lookup_events": 300000, "load_events": 20000, "distinct_keys_checked": 60000}},
+                 "counters": {"lookup_events": 300000, "load_events": 20000, "distinct_keys_checked": 60000,
+                              "module_constructions": 50000, "module_constructions_ok": 40000,
+                              "module_builds_by_api": 40000, "module_builds_during_render": 4000,
+                              "import_target_modules_observed": 3300, "module_lookup_events": 200000,
+                              "module_constructions:module": 22000, "module_constructions:make_module": 11000,
+                              "module_constructions:make_module(vars)": 11000,
+                              "module_constructions:make_module_async": 3600,
+                              "module_constructions:make_module_async(vars)": 3600}},
 }
 
 
